@@ -11,6 +11,15 @@ _PLAN = json.loads(os.environ.get("VF_C10_PLAN", "{}") or "{}")
 _DIR = _PLAN.get("dir")
 
 
+def _signum(name):
+    """'SIGKILL' -> signal.SIGKILL; 'SIGRTMIN+1' -> a real-time signal that has no member in signal.Signals."""
+    import signal as _s
+    if "+" in name:
+        base, off = name.split("+")
+        return getattr(_s, base) + int(off)
+    return getattr(_s, name)
+
+
 def _current_call():
     try:
         with open(os.path.join(_DIR, "current_call")) as f:
@@ -39,7 +48,7 @@ def die(action):
         os._exit(0)
     if action == "exit1":
         os._exit(1)
-    os.kill(os.getpid(), getattr(signal, action))
+    os.kill(os.getpid(), _signum(action))
     # SIGTERM may be handled/ignored: make sure we do not continue
     import time
     time.sleep(5)
@@ -97,7 +106,7 @@ def _parent_kill(name, executor=None, **ctx):
         act = flt["action"] if flt["action"].startswith("SIG") else "SIGKILL"
         for pid in victims:
             try:
-                os.kill(pid, getattr(signal, act))
+                os.kill(pid, _signum(act))
             except OSError:
                 pass
             with open(os.path.join(_DIR, "deaths"), "a") as f:
